@@ -13,6 +13,7 @@ from ..core import (
     dotted,
     is_name,
     is_self_attr,
+    plain,
     strip_at,
     unparse,
     walk_no_nested,
@@ -653,6 +654,77 @@ def rule_fields(rep):
         )
 
 
+def rule_loader_actions(rep):
+    with rep.rule(
+        "R12.loader-actions",
+        "the loader rebuilds every action from its own record only: target state iff the record "
+        "has `state_id`, production iff it has `prod_id`, nothing carried over from the previous "
+        "action of the cell",
+    ) as r:
+        rd = rep.repo.func("parglare.tables.persist.table_from_serializable")
+        loops = [
+            n for n in walk_no_nested(rd.node)
+            if isinstance(n, ast.For) and isinstance(n.target, ast.Name)
+            and any(isinstance(c, ast.Call) and call_name(c) == "Action" for c in walk_no_nested(n))
+        ]
+        # innermost loop that builds Action objects
+        loops = [lp for lp in loops if not any(o is not lp and o in list(ast.walk(lp)) for o in loops)]
+        r.need(len(loops) == 1, "table_from_serializable: loop building the actions not found")
+        loop = loops[0]
+        rec = loop.target.id
+        carried = {
+            n.id for st in loop.body for n in ast.walk(st)
+            if isinstance(n, ast.Name) and isinstance(n.ctx, ast.Store)
+        }
+        atoms = Atoms()
+        atoms.flag(f"'state_id' in {rec}", "has_state").flag(f"'state_id' not in {rec}", "has_state", negate=True)
+        atoms.flag(f"'prod_id' in {rec}", "has_prod").flag(f"'prod_id' not in {rec}", "has_prod", negate=True)
+        space = [dict(has_state=a, has_prod=b) for a in (False, True) for b in (False, True)]
+
+        def run(atom):
+            def eff(st, it):
+                if isinstance(st, ast.Expr) and isinstance(st.value, ast.Call):
+                    for c in ast.walk(st.value):
+                        if isinstance(c, ast.Call) and call_name(c) == "Action":
+                            return ("ACTION", tuple(plain(a) for a in c.args), tuple((k.arg, plain(k.value)) for k in c.keywords))
+                return NotImplemented
+
+            # what an earlier iteration left in the body's own variables is not this record's
+            env = {n: ast.Name(id=f"__STALE_{n}", ctx=ast.Load()) for n in carried}
+            it = Interp(atom, eff, env=env)
+            it.run(loop.body)
+            return list(it.effects)
+
+        init = rep.repo.func("parglare.tables.Action.__init__")
+        params = init.params[1:]
+        for leaf in explore(run, space, atoms):
+            effs = leaf.result
+            for v in leaf.valuations:
+                ok = len(effs) == 1
+                got = {}
+                if ok:
+                    _, args, kws = effs[0]
+                    got = dict(zip(params, args))
+                    got.update(dict(kws))
+                want = {
+                    "action": f"{rec}['action']",
+                    "state": f"states_dict[{rec}['state_id']]" if v["has_state"] else "None",
+                    "prod": f"grammar.productions[{rec}['prod_id']]" if v["has_prod"] else "None",
+                }
+                bad = {k: got.get(k, "None") for k in want if got.get(k, "None") != want[k]}
+                r.check(
+                    ok and not bad,
+                    f"record with state_id={v['has_state']}, prod_id={v['has_prod']}",
+                    "table_from_serializable:action-fields",
+                    f"for an action record {'with' if v['has_state'] else 'without'} state_id and "
+                    f"{'with' if v['has_prod'] else 'without'} prod_id the loader builds "
+                    f"{ {k: str(x).replace('__STALE_', 'left over from the previous action: ') for k, x in bad.items()} }; needed {want} "
+                    "(a REDUCE loaded after a SHIFT of the same cell would carry the SHIFT's state: the loaded table "
+                    "differs from the computed one)" + leaf.free_text(),
+                    node=loop,
+                )
+
+
 def rule_roundtrip_encoding(rep):
     with rep.rule(
         "R12.codec",
@@ -696,4 +768,5 @@ def check(rep):
     rule_stale_domain(rep)
     rule_schema(rep)
     rule_fields(rep)
+    rule_loader_actions(rep)
     rule_roundtrip_encoding(rep)
